@@ -24,6 +24,7 @@ from jobmarket import BrokerModel  # noqa: E402
 from bmc import Protocol  # noqa: E402
 import checks
 import workerloop  # noqa: E402
+import blockloop  # noqa: E402
 import replay as rp  # noqa: E402
 import validate as tv  # noqa: E402
 
@@ -110,6 +111,30 @@ def worker_obligations(pid, mir_text, info, add, violations, inconclusive, only_
                 inconclusive.append(o["obligation"] + ": " + o["result"])
     if "on_demand" in closures:
         info.setdefault("notes", []).append("on_demand.rs worker closure (blocks on a control channel, nested loop) is not encoded")
+
+
+def depth_obligations(pid, mir_text, info, add, violations, inconclusive):
+    """Depth-limit obligations on check_block of bfs.rs/dfs.rs (blockloop.py)."""
+    cbs = blockloop.find_check_blocks(mir_text)
+    missing = [k for k in ("bfs", "dfs") if k not in cbs]
+    if missing:
+        raise Unsupported(f"check_block not found for {missing}")
+    info["check_block"] = {}
+    for name in ("bfs", "dfs"):
+        res, binfo = blockloop.obligations(name, cbs[name])
+        binfo["mir_sha256"] = hashlib.sha256(cbs[name].encode()).hexdigest()[:12]
+        info["check_block"][name] = binfo
+        info["functions_encoded"].append(f"checker::{name}::check_block (MIR sha256 {binfo['mir_sha256']}, {binfo['blocks']} basic blocks, {binfo['round_paths']} paths per job, inner loops {binfo['inner_loops_havocked']} abstracted by havoc)")
+        seen_kinds = set()
+        for o in res:
+            add(o["obligation"], o["result"], **({"witness": o["witness"]} if o.get("witness") else {}))
+            kind = (name, o["obligation"].split(": ", 2)[-1])
+            if o["result"] == "sat":
+                if kind not in seen_kinds:  # one VIOLATION per checker and obligation kind; all paths stay in the evidence
+                    seen_kinds.add(kind)
+                    violations.append({"property": pid, "obligation": o["obligation"], "static": True, "witness": o.get("witness")})
+            elif o["result"] != "unsat":
+                inconclusive.append(o["obligation"] + ": " + o["result"])
 
 
 def run(pid, tier, seed, replay_path=None):
@@ -233,6 +258,7 @@ def run(pid, tier, seed, replay_path=None):
                     inconclusive.append(o["obligation"] + ": " + o["result"])
         elif pid == "C12":
             worker_obligations(pid, mir_text, info, add, violations, inconclusive, only_observation=True)
+            depth_obligations(pid, mir_text, info, add, violations, inconclusive)
             outs, n_paths = checks.static_timeout(bm)
             info["timeout_thread_paths"] = n_paths
             for o in outs:
@@ -544,6 +570,37 @@ fn verif_worker_leaves_only_for_a_stop_reason() {
 }
 '''
 
+DEPTH_TEST = r'''
+use stateright::{Checker, Model, Property, StateRecorder};
+
+/// Complete binary tree with 8 levels; a state is (depth, index), the root has depth 1.
+struct Tree;
+impl Model for Tree {
+    type State = (u32, u32);
+    type Action = u32;
+    fn init_states(&self) -> Vec<(u32, u32)> { vec![(1, 0)] }
+    fn actions(&self, s: &(u32, u32), a: &mut Vec<u32>) { if s.0 < 8 { a.push(0); a.push(1); } }
+    fn next_state(&self, s: &(u32, u32), a: u32) -> Option<(u32, u32)> { Some((s.0 + 1, 2 * s.1 + a)) }
+    fn properties(&self) -> Vec<Property<Self>> { vec![Property::always("true", |_, _| true)] }
+}
+
+#[test]
+fn verif_depth_limit_is_honoured() {
+    for k in 1usize..=6 {
+        for dfs in [false, true] {
+            let (rec, evaluated) = StateRecorder::new_with_accessor();
+            let b = Tree.checker().threads(1).target_max_depth(k).visitor(rec);
+            if dfs { b.spawn_dfs().join(); } else { b.spawn_bfs().join(); }
+            let ev = evaluated();
+            let deepest = ev.iter().map(|s| s.0).max().unwrap_or(0);
+            assert!(deepest as usize <= k, "VIOLATION depth limit: target_max_depth({}) dfs={} evaluated a state at depth {}", k, dfs, deepest);
+            let nearer = ev.iter().filter(|s| (s.0 as usize) < k).count();
+            assert!(nearer == (1usize << (k - 1)) - 1, "VIOLATION depth limit: target_max_depth({}) dfs={} evaluated {} of the {} states nearer than the limit", k, dfs, nearer, (1usize << (k - 1)) - 1);
+        }
+    }
+}
+'''
+
 STATIC_TEST_LATE = r'''
 #[cfg(test)]
 mod verif_replay_static_late {
@@ -583,6 +640,30 @@ def _native_test(d, code, filt, marker):
 _WORKER_REPLAYS = {}
 
 
+def _integration_test(d, v, code, fname, marker):
+    sr = os.path.join(d, "pristine")
+    os.makedirs(os.path.join(sr, "tests"), exist_ok=True)
+    tp = os.path.join(sr, "tests", fname + ".rs")
+    v["replay_test"] = code
+    if code in _WORKER_REPLAYS:
+        return _WORKER_REPLAYS[code]
+    open(tp, "w").write(code)
+    try:
+        env = dict(os.environ)
+        env["CARGO_NET_OFFLINE"] = "true"
+        env["CARGO_TARGET_DIR"] = os.path.join(CACHE_ROOT, "target-mir-native")
+        r = subprocess.run(["cargo", "test", "--offline", "--test", fname], cwd=sr, env=env, stdout=subprocess.PIPE, stderr=subprocess.STDOUT, text=True, timeout=1500)
+        if marker in r.stdout:
+            _WORKER_REPLAYS[code] = (True, r.stdout[-1500:])
+        elif re.search(r"test result: ok\. 1 passed", r.stdout):
+            _WORKER_REPLAYS[code] = (False, r.stdout[-800:])
+        else:
+            return None, r.stdout[-1500:]
+        return _WORKER_REPLAYS[code]
+    finally:
+        os.remove(tp)
+
+
 def replay_static(d, pid, v):
     """Static obligations with a native demonstration."""
     if pid == "C12" and "not closed by the timeout thread before the closing time" in v["obligation"]:
@@ -618,6 +699,8 @@ def replay_static(d, pid, v):
             return _WORKER_REPLAYS[code]
         finally:
             os.remove(tp)
+    if " check_block: " in v["obligation"]:
+        return _integration_test(d, v, DEPTH_TEST, "verif_depth_limit", "VIOLATION depth limit")
     if "the worker leaves only after" in v["obligation"]:
         sr = os.path.join(d, "pristine")
         os.makedirs(os.path.join(sr, "tests"), exist_ok=True)
@@ -677,22 +760,23 @@ EXPLAIN = {
             "an iteration that sees closing_time < now closes the market and exits (dropping its broker clone, whose Drop wakes all waiters); before that it "
             "leaves the market untouched and goes back to sleep for one period - so the market is closed at most one sleep period plus one critical section "
             "after expiry, for every thread count; it never sleeps while holding the market mutex (an unexpired timeout takes no progress away from the "
-            "workers); once closed, every worker's NEXT broker call (pop/split_and_push/push) observes it and hands out nothing. That a busy worker makes such a call is decided on the MIR of the bfs.rs/dfs.rs worker closures, executed symbolically one round at a time (queue lengths, thread count, block outcome, finish verdict symbolic): a round without a broker call that observes the market must end with an empty queue (so the next round starts with pop) - otherwise rounds that never look at the market can follow each other for ever and the timeout is ignored. Finish-condition and target wiring of those closures: a worker leaves its loop only after pop returned an empty batch, after finish_when.matches(..) returned true, or when target_state_count <= state_count (the verdict of matches itself and the counter are arbitrary values here)."),
+            "workers); once closed, every worker's NEXT broker call (pop/split_and_push/push) observes it and hands out nothing. That a busy worker makes such a call is decided on the MIR of the bfs.rs/dfs.rs worker closures, executed symbolically one round at a time (queue lengths, thread count, block outcome, finish verdict symbolic): a round without a broker call that observes the market must end with an empty queue (so the next round starts with pop) - otherwise rounds that never look at the market can follow each other for ever and the timeout is ignored. Finish-condition and target wiring of those closures: a worker leaves its loop only after pop returned an empty batch, after finish_when.matches(..) returned true, or when target_state_count <= state_count (the verdict of matches itself and the counter are arbitrary values here). Depth limit: check_block of bfs.rs and dfs.rs is executed from its MIR one job at a time with the job's depth d and target_max_depth symbolic (inner loops over properties and successors abstracted by havocking what they assign; model callbacks, property conditions, visitor, DashMap arbitrary): a popped job is skipped only if the limit is set and d >= limit (every state nearer than the limit is evaluated), an evaluated job has d <= limit (nothing deeper is evaluated), and every successor is queued with depth d + 1."),
 }
 BOUNDS = {
     "C05": {"quick": {"threads": "2 (K=10), 3 (K=8)", "jobs_per_queue": "<=6", "generated_per_block": "<=2", "market_batches": "<=4", "invariant": "inductive: any schedule length, T=2 and T=3"},
             "thorough": {"threads": "2 (K=14; K=10 with spurious wake-ups), 3 (K=10; K=8 with spurious wake-ups)", "jobs_per_queue": "<=6", "generated_per_block": "<=2", "market_batches": "<=4", "variants": "with and without spurious wake-ups", "invariant": "inductive, T=2 and T=3"}},
-    "C12": {"quick": {"paths": "all paths of one loop iteration of the timeout thread, arbitrary market state and clock"}, "thorough": {"paths": "same (the check is not bounded in schedule length)"}},
+    "C12": {"quick": {"paths": "all paths of one loop iteration of the timeout thread (arbitrary market state and clock); all paths of one round of the bfs.rs/dfs.rs worker closures; all paths of one job through check_block of bfs.rs/dfs.rs with each inner loop abstracted (havoc at the loop head, exit path + one body iteration)"}, "thorough": {"paths": "same (the check is not bounded in schedule length)"}},
 }
 OUTSIDE = {
     "C05": ["equality of the evaluated state set / verdicts with the single-threaded run (needs check_block + DashMap arbitration; see C01)", "more than 3 worker threads, longer schedules for the BMC obligations", "memory-model effects (all shared state is mutex-protected)", "OS scheduling fairness; the timeout stop reason (see C12)", "the on_demand.rs worker closure (not encoded)"],
-    "C12": ["the on_demand.rs worker closure (same sharing code, blocks on a control channel; not encoded - OnDemandChecker::join cannot return anyway)", "the length of one block of work (check_block evaluates up to 1500 states between two broker calls)", "what HasDiscoveries::matches computes (CBMC out of memory, measured) and which discoveries/properties it is handed; target_max_depth and BFS depth completeness (inside check_block); the state counter's accuracy", "simulation seeding (RNG + HashSet) and the simulation checker's own shutdown flag", "wall-clock accuracy of real sleeps"],
+    "C12": ["the on_demand.rs worker closure (same sharing code, blocks on a control channel; not encoded - OnDemandChecker::join cannot return anyway)", "the length of one block of work (check_block evaluates up to 1500 states between two broker calls)", "what HasDiscoveries::matches computes (CBMC out of memory, measured) and which discoveries/properties it is handed; the state counter's accuracy", "depth labels of the initial jobs (built in spawn(), depth 1) and that BFS's FIFO order makes the label the true distance (queue order is not modelled: lengths only); the on_demand checker's check_block (it has no depth limit)", "simulation seeding (RNG + HashSet) and the simulation checker's own shutdown flag", "wall-clock accuracy of real sleeps"],
 }
 ASSUME = [
     "crate `log` replaced by a model whose macros expand to nothing",
     "crate `parking_lot` replaced by a model exposing lock / wait / notify_one / notify_all / guard drop as sync points; contract: mutual exclusion, wait releases and re-acquires atomically, notify_one wakes at most one CURRENT waiter (solver-chosen), notify_all all current waiters; spurious wake-ups allowed in the thorough variant",
     "Vec<VecDeque<Job>> / VecDeque<Job> abstracted to their lengths (jobs are opaque and conserved by new/len/is_empty/clear/push/pop/split_off); job_batches capacity 4 in the model (exceeding it is reported, not ignored)",
     "the worker loop of the BMC's client automaton (pop on empty queue -> one block -> stop | split_and_push -> ...) is checked against the MIR of the bfs.rs/dfs.rs spawn() closures on every run (worker-loop obligations) and its sharing rule (`len > 1 && thread_count > 1` or unconditional) is derived from that MIR; the on_demand.rs closure is not encoded",
+    "check_block (depth obligations): every callee is arbitrary except queue pop/push, NonZero arithmetic and the depth comparison; inner loops are over-approximated by havocking, at the loop head, every local assigned in the loop and every queue length; `otherwise -> unreachable` switch arms emitted by rustc for exhaustive enum matches are trusted",
     "worker closures: check_block sets the local queue to an arbitrary length, HasDiscoveries::matches returns an arbitrary bool, atomic loads arbitrary values, JobBroker::pop an arbitrary batch, split_and_push leaves an arbitrary part of the queue; any other callee that is handed neither the broker nor a queue returns an arbitrary value of its type and cannot reach them (both are owned by the closure); a callee that is handed one and has no model makes the check inconclusive",
 ]
 
